@@ -21,6 +21,10 @@ func (ex *Exec) valTV(v Val, t types.Type, st *State) TV {
 		if ok && v.P.Cell != nil && !v.P.Unknown {
 			return TV{ex.load(v.P, st, "contract"), ex.u.SortOf(pt.Elem())}
 		}
+		if ok {
+			// nil or unknown pointer: the pointee is an unconstrained value (clauses about it cannot be proved)
+			return TV{ex.u.Fresh("nilptr.pointee", ex.u.SortOf(pt.Elem())), ex.u.SortOf(pt.Elem())}
+		}
 		return TV{ex.pure(v, t, st), "Ref"}
 	}
 	return TV{ex.pure(v, t, st), ex.u.SortOf(t)}
@@ -164,6 +168,18 @@ func (ex *Exec) loadGlobal(g *ssa.Global, st *State) Val {
 	for _, f := range ex.prog.globalFacts(g, c, ex.u) {
 		st.assume(f)
 	}
+	for _, gf := range ex.cs.Globals[g.Pkg.Pkg.Path()] {
+		if gf.Var != g.Name() {
+			continue
+		}
+		env := &Env{u: ex.u, vars: map[string]TV{gf.Var: {c, sort}}, bound: map[string]string{}, lets: map[string]*Expr{}}
+		tv, err := env.Translate(gf.E, "Bool")
+		if err != nil {
+			unsupported("global fact for %s: %v", gf.Var, err)
+		}
+		st.assume(tv.T)
+		ex.models["abstraction step (justified by the C18 key lemmas): global "+g.Name()+": "+gf.Text] = true
+	}
 	return Val{T: c}
 }
 
@@ -181,6 +197,29 @@ func (ex *Exec) call(fr *Frame, st *State, instr ssa.Value, com *ssa.CallCommon,
 			if out, handled := m(ex, fr, st, com, recv, args, in); handled {
 				ex.models[key] = true
 				return out
+			}
+		}
+		if conc, ok := ex.cs.Impls[com.Value.Type().String()]; ok {
+			ckey := "(" + conc + ")." + com.Method.Name()
+			if c := ex.cs.Lookup(ckey); c != nil {
+				ex.models["interface "+shortFn(com.Value.Type().String())+" is implemented by "+shortFn(conc)+" (wiring checked by the app frame obligation)"] = true
+				fn := ex.prog.FindFunc(ckey)
+				if fn == nil {
+					unsupported("implementation %s not found", ckey)
+				}
+				all := append([]Val{recv}, args...)
+				if c.Inline {
+					ex.inlined[ckey] = true
+					// receiver: the concrete keeper value is opaque here; inlining needs its fields
+					unsupported("inline contract on interface-dispatched %s", ckey)
+				}
+				var ptypes []types.Type
+				for _, p := range fn.Params {
+					ptypes = append(ptypes, p.Type())
+				}
+				// the receiver is the interface value; contracts never mention keeper fields
+				all[0] = Val{T: ex.u.Fresh("keeper", ex.u.SortOf(fn.Params[0].Type()))}
+				return ex.applyContract(c, ckey, fn.Signature, ex.paramNames(fn, c), ptypes, all, st, in)
 			}
 		}
 		if c := ex.cs.Lookup(key); c != nil {
@@ -383,6 +422,14 @@ func (ex *Exec) applyContract(c *Contract, key string, sig *types.Signature, pna
 			unsupported("ensures of %s: %v", key, err)
 		}
 		st.assume(tv.T)
+	}
+	for _, cl := range c.Abstracts {
+		tv, err := post.Translate(cl.E, "Bool")
+		if err != nil {
+			unsupported("abstracts of %s: %v", key, err)
+		}
+		st.assume(tv.T)
+		ex.models["abstraction step (justified by the C18 key lemmas, not by this body): "+shortFn(key)+": "+cl.Text] = true
 	}
 	return []Outcome{{st: st, results: rs}}
 }
